@@ -69,6 +69,9 @@ def gen_text(rng, big):
         lines.append(("out", f"{'output' if lower_io else 'OUTPUT'}{ws(rng, 0.2)}({ws(rng)}{o}{ws(rng)})"))
     for name, kw, ops in gates:
         k = kw.lower() if (lower_kw if rng.random() < 0.8 else not lower_kw) else kw
+        if kw.upper() in ("AND", "NAND", "OR", "NOR") and rng.random() < 0.06:
+            ops = list(ops) + [rng.choice(ops)]  # the same net listed twice (idempotent gate types only)
+            rng.shuffle(ops)
         wrap = len(ops) > 1 and rng.random() < 0.12  # operand list continued on the next line(s)
         args = ""
         for j, o_ in enumerate(ops):
